@@ -244,6 +244,7 @@ def check(run):
         "rejected_at_dotx": (tot.get("reject_at_dotx", 0), 5),
         # every projection reads the keys a second time on a node that has only the stored data (no warm version cache)
         "cache_free_reads": (tot.get("cold_reads", 0), 10000 if quick else 100000),
+        "reads_on_reopened_copy": (tot.get("reopened_reads", 0), 1000 if quick else 10000),
         # committed write sets in which an event / contract utxo record precedes a write of the contract (offsets shifted)
         "commits_with_write_after_transient": (tot.get("admit_write_after_transient", 0), 40),
         "control_write_swap": (tot.get("tk_write_swap_admit", 0) + tot.get("tk_write_swap_reject", 0), 5),
